@@ -24,6 +24,33 @@ instance : Div CQ := ⟨fun a b =>
   ⟨(a.re * b.re + a.im * b.im) / d, (a.im * b.re - a.re * b.im) / d⟩⟩
 instance : NatCast CQ := ⟨fun n => ⟨(n : Rat), 0⟩⟩
 
+/-- `2^e` as a rational -/
+def pow2 (e : Int) : Rat :=
+  if e ≥ 0 then ((2 ^ e.toNat : Nat) : Rat) else 1 / ((2 ^ (-e).toNat : Nat) : Rat)
+
+/-- the largest `e` with `2^e ≤ |q|` (`q ≠ 0`) -/
+def ilog2 (q : Rat) : Int :=
+  let e0 : Int := (Nat.log2 q.num.natAbs : Int) - (Nat.log2 q.den : Int)
+  if pow2 e0 ≤ (if q < 0 then -q else q) then e0 else e0 - 1
+
+/-- IEEE binary32 rounding (nearest, ties to even; subnormals; no overflow handling: the harness
+keeps values far below `2^128`) of an exact rational: what `ndarray.astype(float32)` stores -/
+def round32 (q : Rat) : Rat :=
+  if q = 0 then 0 else
+  let e := max (ilog2 q) (-126)
+  let quantum := pow2 (e - 23)
+  ((roundHE (q / quantum) : Int) : Rat) * quantum
+
+/-- numpy's conversion of a (complex) value to a dtype: real dtypes keep the real part, single
+precision rounds both parts; `i64` is never the target of a lossy conversion in the model -/
+instance : DCast CQ := ⟨fun d z =>
+  match d with
+  | .c128 => z
+  | .f64 => ⟨z.re, 0⟩
+  | .c64 => ⟨round32 z.re, round32 z.im⟩
+  | .f32 => ⟨round32 z.re, 0⟩
+  | .i64 => z⟩
+
 def getCQ (j : Json) : Except String CQ :=
   match j with
   | .arr a =>
